@@ -121,6 +121,10 @@ def run(prop_id, rng, rep):
         return [], [], {}
     broken, extra = [], []
     stats = {"engine": "Kani 0.68 / CBMC 6.11 (bounded model checking used as symbolic correspondence; not a proof)", "harnesses": {}}
+    lock = os.path.join(C.REPO, "Cargo.lock")
+    if os.path.exists(lock) and not os.path.exists(os.path.join(KDIR, "Cargo.lock")):
+        import shutil
+        shutil.copy(lock, os.path.join(KDIR, "Cargo.lock"))
     # (1) the reference formulas are the Coq Spec's
     p = subprocess.run(["cargo", "build", "--release", "--bin", "kref"], cwd=KDIR, env=ENV, stdout=subprocess.PIPE, stderr=subprocess.STDOUT, timeout=1200)
     if p.returncode != 0:
